@@ -39,7 +39,7 @@ LGC = 'mitxgraders.listgrader.ListGrader'
 
 def check(ctx):
     idx = ctx.index
-    for fn in (d1_ordered, d2_unordered, d3_grouping, d4_best, d5_zeroing, d6_order, d7_solver):
+    for fn in (d1_ordered, d2_unordered, d3_grouping, d4_best, d5_zeroing, d6_order, d7_solver, d8_group_sizes):
         cm.guarded(ctx, fn, idx)
 
 
@@ -1336,6 +1336,143 @@ def d7_solver(ctx, idx):
         c06.solver_rules(r, idx)
 
 
+# ------------------------------------------------------------------------------- D8
+def d8_group_sizes(ctx, idx):
+    """Every valid grouping must be accepted and graded box by box: equal group sizes are demanded exactly of UNORDERED graders
+    (the assignment needs interchangeable groups); an ordered grader may have groups of different sizes."""
+    r = ctx.rule('D8.GROUPS', 'validate_grouping demands equal group sizes exactly when the grader is unordered', floor=1)
+    with r:
+        ci = idx.cls(LGC)
+        vg = idx.func(LGC + '.validate_grouping')
+        S = vg.params[0]
+        methods = ci.methods
+        funcs = [vg] + [methods[m] for m in {nf.callee_name(c) for c in walk_own(vg.node) if isinstance(c, ast.Call)
+                                             and cm.is_self_attr(c.func, S)} if m in methods]
+        pats = [nf.pat(x) for x in ('len(_G) != _L', '1 < len(set(_X))', 'len(set(_X)) != 1', '2 <= len(set(_X))')]
+
+        def is_size_test(t):
+            """does the (canonical) test say "the groups do not all have the same length"?"""
+            if any(nf.Matcher().match(p_, t) is not None for p_ in pats):
+                return True
+            if isinstance(t, ast.Call) and nf.callee_name(t) == 'any' and len(t.args) == 1 and isinstance(t.args[0], (ast.GeneratorExp, ast.ListComp)):
+                return nf.Matcher().match(pats[0], nf.canon(t.args[0].elt)) is not None
+            if isinstance(t, ast.UnaryOp) and isinstance(t.op, ast.Not) and isinstance(t.operand, ast.Call) and nf.callee_name(t.operand) == 'all' \
+                    and len(t.operand.args) == 1 and isinstance(t.operand.args[0], (ast.GeneratorExp, ast.ListComp)):
+                return nf.match('len(_G) == _L', t.operand.args[0].elt) is not None
+            if isinstance(t, ast.Compare) and len(t.ops) == 1:
+                for side, other, ops in ((t.comparators[0], t.left, (ast.Lt, ast.NotEq)), (t.left, t.comparators[0], (ast.NotEq,))):
+                    if cm.is_call_to(side, 'len', 1) and isinstance(side.args[0], ast.SetComp) and nf.const_value(other, None) == 1 \
+                            and isinstance(t.ops[0], ops):
+                        return True
+            return False
+        targets = []
+        for f in funcs:
+            for rs in lib.raises_of(f.node):
+                g = cm.guards_of(rs, stop=f.node)
+                t_ = nf.canon(cm.inline(f, g[-1])) if g else None
+                if t_ is not None and is_size_test(t_) \
+                        and not any(lib.is_config(n, 'subgraders') for n in ast.walk(t_)) \
+                        and not any(isinstance(n, ast.Name) and n.id in ('subgraders',) for n in ast.walk(t_)):
+                    targets.append((f, rs))
+        if len(targets) != 1:
+            raise AnalysisError('validate_grouping: the equal-size check of the groups was not found (%d candidates)' % len(targets))
+        tf, target = targets[0]
+
+        def ev(t, val, f):
+            t = nf.canon(t)
+            if isinstance(t, ast.UnaryOp) and isinstance(t.op, ast.Not):
+                v = ev(t.operand, val, f)
+                return None if v is None else not v
+            if isinstance(t, ast.BoolOp):
+                vs = [ev(x, val, f) for x in t.values]
+                if isinstance(t.op, ast.And):
+                    return False if any(v is False for v in vs) else (None if None in vs else True)
+                return True if any(v is True for v in vs) else (None if None in vs else False)
+            sn = f.params[0] if f.params else S
+            if lib.is_config(t, 'ordered'):
+                return val['ordered']
+            if cm.is_self_attr(t, sn, 'subgrader_list'):
+                return val['sl']
+            if cm.is_call_to(t, 'isinstance', 2) and nf.callee_name(t) == 'isinstance' and unparse(t.args[1]).split('.')[-1] == 'ListGrader':
+                a = cm.value_of(f, t.args[0]) if isinstance(t.args[0], ast.Name) else t.args[0]
+                if lib.is_config(a, 'subgraders'):
+                    return val['islg']
+            return None
+
+        def contains(node, x):
+            return any(n is x for n in ast.walk(node))
+
+        def reach(stmts, val, f, depth=0):
+            """'hit' | 'stopped' (an earlier raise/return certainly ends the call) | 'passed' (falls through without hitting)"""
+            for s_ in stmts:
+                if s_ is target:
+                    return 'hit'
+                if isinstance(s_, (ast.Raise, ast.Return)):
+                    return 'stopped'
+                if isinstance(s_, ast.If):
+                    t = ev(s_.test, val, f)
+                    outs = []
+                    if t is not False:
+                        outs.append(reach(s_.body, val, f, depth))
+                    if t is not True:
+                        outs.append(reach(s_.orelse, val, f, depth))
+                    if 'hit' in outs:
+                        return 'hit'
+                    if outs and all(o == 'stopped' for o in outs) and t is not None:
+                        return 'stopped'
+                    continue
+                if isinstance(s_, (ast.For, ast.While)):
+                    if reach(s_.body, val, f, depth) == 'hit':
+                        return 'hit'
+                    continue
+                if isinstance(s_, ast.Expr) and isinstance(s_.value, ast.Call) and cm.is_self_attr(s_.value.func, f.params[0] if f.params else S) \
+                        and s_.value.func.attr in methods and depth < 2:
+                    callee = methods[s_.value.func.attr]
+                    out = reach(callee.node.body, val, callee, depth + 1)
+                    if out == 'hit':
+                        return 'hit'
+                    continue
+            return 'passed'
+        # unordered graders never have a list of subgraders (schema_answers refuses that): verify and restrict the domain
+        sa_ = idx.func(LGC + '.schema_answers')
+        excluded = False
+        for rs in lib.raises_of(sa_.node):
+            g = cm.guards_of(rs, stop=sa_.node)
+            if any(cm.is_self_attr(x, sa_.params[0], 'subgrader_list') for x in g) and any(
+                    isinstance(x, ast.UnaryOp) and isinstance(x.op, ast.Not) and lib.is_config(x.operand, 'ordered') for x in g):
+                excluded = True
+        problems = []
+        for ordered in (True, False):
+            for sl in (True, False):
+                for islg in (True, False):
+                    if excluded and (not ordered) and sl:
+                        continue
+                    out = reach(vg.node.body, {'ordered': ordered, 'sl': sl, 'islg': islg}, vg)
+                    if out == 'stopped':
+                        continue
+                    if (out == 'hit') != (not ordered):
+                        problems.append((ordered, sl, islg, out))
+        construct = 'ListGrader.validate_grouping: equal group sizes'
+        where = lib.loc(tf, target)
+        if not problems:
+            r.ok(construct, 'checked exactly when config[ordered] is false', where)
+        else:
+            too_much = [p_ for p_ in problems if p_[0]]
+            too_little = [p_ for p_ in problems if not p_[0]]
+            if too_much:
+                o, sl, islg, _ = too_much[0]
+                r.violation(construct, 'groups of different sizes are refused ("must all be the same length") for an ORDERED grader (%s): the '
+                            'check no longer depends on config[\'ordered\'], so a valid grouped, ordered ListGrader whose groups differ in size '
+                            'can no longer be built (every valid grouping must be graded box by box)' % (
+                                'list of subgraders' if sl else 'single %s subgrader' % ('ListGrader' if islg else 'non-list')), where,
+                            expected="only if not self.config['ordered']")
+            if too_little:
+                o, sl, islg, _ = too_little[0]
+                r.violation(construct, 'an UNORDERED grader (%s) with groups of different sizes is accepted: the assignment of groups to answers '
+                            'needs groups of equal size' % ('list of subgraders' if sl else 'single subgrader'), where,
+                            expected="checked whenever not self.config['ordered']")
+
+
 # ------------------------------------------------------------------------ self-test
 _PC_OLD = ("        self.validate_submission(answers, student_list)\n\n        # Group the inputs in preparation for grading\n"
            "        grouped_inputs = self.groupify_list(self.grouping, student_list)\n")
@@ -1414,6 +1551,9 @@ MUTANTS = [
     Mutant('solver-marked-not-reset', MK, "        self.marked = self.__make_matrix(self.n, 0)\n\n        done = False", "\n        done = False", 'D7'),
     Mutant('ok-from-comparison', BASE, "        return {0: False, 1: True}.get(grade, 'partial')", "        if grade in (0, 1):\n            return grade == 1\n        return 'partial'", 'D5'),
     Mutant('ok-stored-from-comparison', LG, "        result['ok'] = AbstractGrader.grade_decimal_to_ok(result['grade_decimal'])", "        result['ok'] = result['grade_decimal'] == 1 or (result['grade_decimal'] != 0 and 'partial')", 'D5'),
+    # D8
+    Mutant('equal-sizes-demanded-of-ordered', LG, "        if not self.config['ordered']:\n            group_len = len(self.grouping[0])", "        if not self.subgrader_list:\n            group_len = len(self.grouping[0])", 'D8'),
+    Mutant('equal-sizes-never-demanded', LG, "        if not self.config['ordered']:\n            group_len = len(self.grouping[0])", "        if self.config['ordered']:\n            group_len = len(self.grouping[0])", 'D8'),
     # D6
     Mutant('validation-dropped', LG, "        self.validate_submission(answers, student_list)\n\n        # Group the inputs", "        # Group the inputs", 'D6'),
     Mutant('validation-only-ordered', LG, "        self.validate_submission(answers, student_list)\n\n        # Group the inputs",
@@ -1449,6 +1589,10 @@ BENIGN = [
     Benign('perfect-by-equality-with-comparison-ok', LG, "perfect = all(entry['ok'] is True for entry", "perfect = all(entry['ok'] == True for entry"),
     Benign('siblings-through-shared-kwargs', LG, "        input_list = [\n            grader.check(answer, theinput, siblings=siblings)\n",
            "        shared = {'siblings': siblings}\n        input_list = [\n            grader.check(answer, theinput, **shared)\n"),
+    Benign('group-sizes-by-any', LG, "            for group in self.grouping:\n                if len(group) != group_len:\n                    raise ConfigError(\"Groups must all be the same length when unordered\")",
+           "            if any(len(group) != group_len for group in self.grouping):\n                raise ConfigError(\"Groups must all be the same length when unordered\")"),
+    Benign('group-sizes-by-set', LG, "            group_len = len(self.grouping[0])\n            for group in self.grouping:\n                if len(group) != group_len:\n                    raise ConfigError(\"Groups must all be the same length when unordered\")",
+           "            if len(set(len(group) for group in self.grouping)) > 1:\n                raise ConfigError(\"Groups must all be the same length when unordered\")"),
     Benign('max-as-method', LG, "        max_score = np.max(scores)", "        max_score = scores.max()"),
     Benign('log-before-validation', LG, "        self.validate_submission(answers, student_list)\n\n        # Group the inputs",
            "        self.log('checking a list')\n        self.validate_submission(answers, student_list)\n\n        # Group the inputs"),
